@@ -189,6 +189,7 @@ func (b *BatchProcessor) OnEmit(_ context.Context, r *Record) error {
 	if b.stopped.Load() || b.q == nil {
 		return nil
 	}
+	verifPoint("blrp.OnEmit.checked")
 	// The record is cloned so that changes done by subsequent processors
 	// are not going to lead to a data race.
 	if n := b.q.Enqueue(r.Clone()); n >= b.batchSize {
@@ -208,6 +209,7 @@ func (b *BatchProcessor) Shutdown(ctx context.Context) error {
 	if b.stopped.Swap(true) || b.q == nil {
 		return nil
 	}
+	verifPoint("blrp.Shutdown.swapped")
 
 	// Stop the poll goroutine.
 	close(b.pollKill)
@@ -235,6 +237,7 @@ func (b *BatchProcessor) ForceFlush(ctx context.Context) error {
 	if b.stopped.Load() || b.q == nil {
 		return nil
 	}
+	verifPoint("blrp.ForceFlush.checked")
 
 	buf := make([]Record, b.q.cap)
 	notFlushed := func() bool {
